@@ -22,6 +22,37 @@ def _complex(pe_, a, k):
     return a[0] if len(a) == 1 else pe_.s_add(a[0], pe_.s_mul(a[1], dag.sym("I")))
 
 
+# direction of the coupling steps for conditions that compare couplings: "forward" (towards higher scales, couplings decrease along
+# the steps) or "backward"; checks that depend on the direction evaluate both (`with kern.direction("backward"): ...`)
+DIRECTION = ["forward"]
+
+
+class direction:
+    def __init__(self, d):
+        self.d = d
+
+    def __enter__(self):
+        self.old = DIRECTION[0]
+        DIRECTION[0] = self.d
+
+    def __exit__(self, *a):
+        DIRECTION[0] = self.old
+
+
+def coupling_representatives():
+    """values standing for the coupling symbols of the kernel checks in the current direction (only their ORDER matters)"""
+    from fractions import Fraction
+
+    fwd = DIRECTION[0] == "forward"
+    rep = {"a0": Fraction(30, 1000), "a1": Fraction(20, 1000), "am": Fraction(25, 1000), "as0": Fraction(30, 1000), "as1": Fraction(20, 1000)}
+    for i in range(8):
+        rep[f"asl{i}"] = rep[f"as{i}"] = Fraction(30 - 2 * i, 1000)
+        rep[f"ash{i}"] = rep[f"ah{i}"] = Fraction(29 - 2 * i, 1000)
+    if not fwd:
+        rep = {k: Fraction(60, 1000) - v for k, v in rep.items()}
+    return rep
+
+
 def assume_distinct_couplings(text, env):
     """named regime assumption: distinct coupling symbols denote different values"""
     from . import pe as P
@@ -30,6 +61,9 @@ def assume_distinct_couplings(text, env):
         t = ast.parse(text, mode="eval").body
     except SyntaxError:
         return None
+    if isinstance(t, ast.Compare) and len(t.ops) == 1 and isinstance(t.ops[0], (ast.Lt, ast.LtE, ast.Gt, ast.GtE)):
+        # an ordering between couplings (the sign of a coupling step): decided in the direction under evaluation
+        return P.decide_on_values(P.CURRENT_PE, text, env, coupling_representatives(), generic=False)
     if not (isinstance(t, ast.Compare) and len(t.ops) == 1 and isinstance(t.ops[0], (ast.Eq, ast.NotEq))):
         return None
     try:
@@ -141,3 +175,40 @@ def expm_ref(m: Arr) -> Arr:
     dim = m.shape[0]
     flat = [dag.tonode(x) for x in m.flat()]
     return Arr([dag.fn(f"EXPM{dim}_{i}{j}", *flat) for i in range(dim) for j in range(dim)], (dim, dim))
+
+
+def qed_product_order(chk, rule, orders=((2, 1),), nfc=4):
+    """The QED iterated kernels (singlet 4x4, valence 2x2) are the product of their step exponentials with the LATER step on the
+    left - for steps towards higher scales (couplings decreasing) and towards lower scales alike.  Shared by C12 (convergence to the
+    path-ordered solution) and C14 (same product order as the QCD kernel, whose generators agree at a_em = 0)."""
+    n_done = 0
+    for d in ("forward", "backward"):
+        with direction(d):
+            src, pe, M = setup(chk)
+            log4 = []
+            install_expm_model(pe, log4)
+            for qn, dim in ((f"{QSG}.dispatcher", 4), (f"{QVL}.dispatcher", 2)):
+                f = src.func(qn)
+                for (n, m) in orders:
+                    its = 3
+                    inst = f"order=({n},{m}),nf={nfc},{dim}x{dim},steps towards {'higher' if d == 'forward' else 'lower'} scales"
+                    G = Arr.from_nested([[[[dag.sym(f"Q{i}_{j}_{r}{c}") for c in range(dim)] for r in range(dim)] for j in range(m + 1)] for i in range(n + 1)])
+                    as_list = Arr.from_nested([dag.sym(f"as{i}") for i in range(its + 1)])
+                    a_half = Arr.from_nested([[dag.sym(f"ah{i}"), dag.sym(f"aemh{i}")] for i in range(its)])
+                    del log4[:]
+                    try:
+                        K = pe.call(qn, [(n, m), M["ITERATE_EXACT"], G, as_list, a_half, nfc, its, (10, 0)])
+                    except Exception as e:  # noqa: BLE001
+                        chk.fail(rule, qn, f"{inst}: the kernel cannot be extracted: {type(e).__name__} {e}", where=f.where, instance=inst)
+                        continue
+                    chk.need(len(log4) == its, f"expected {its} exponentials, saw {len(log4)} ({inst})")
+                    want = eye(dim)
+                    for s_ in range(its):
+                        want = mat_mul(expm_ref(log4[s_]), want)
+                    ok, info = dag.is_zero_fp(mat_sub(K, want).flat(), chk.seed, 2)
+                    n_done += 1
+                    chk.decide(ok, rule, qn, f"{inst}: the iterated kernel is not exp(step 3) exp(step 2) exp(step 1) - the later step on the left, "
+                               f"whatever the direction of the steps: the product then differs from the path-ordered solution (and from the QCD "
+                               f"kernel at a_em = 0) by a commutator that does not vanish with the number of steps", where=f.where, instance=inst,
+                               data={"witness": info}, how="PE in both directions of the coupling steps + PIT F_p")
+    return n_done
